@@ -1,0 +1,17 @@
+//go:build verif
+
+// Contracts for the verification machinery in /verif (comment-only; no code).
+
+package quicswarm
+
+// the peer identity is the SHAKE-256 hash of the canonical (re-marshalled) key, as in p2pkeswarm:
+// the same key must have the same identity in every layer that computes one
+//@ func DefaultFingerprinter
+//@   noframe
+//@   ghostvar shake = false
+//@   ghostvar canonical = false
+//@   ensures [samehash] ghost(shake) && ghost(canonical)
+//@   after call MarshalPublicKey:
+//@     set canonical = true
+//@   after call ShakeSum256:
+//@     set shake = true
